@@ -25,7 +25,8 @@ def run_cl(ck, cmd, clauses, known_scenarios):
         if l.startswith("direct ") and " FAIL " in l:
             m = re.search(r"scn=(\d+)", l)
             k = m.group(1) if m else ""
-            clause = "accessors_total" if l.startswith("direct accessor") else "future_total"
+            kind = l.split()[1]
+            clause = clauses.get("direct:" + kind, {"accessor": "accessors_total"}.get(kind, "future_total"))
             ck.fail_input(clause, l + " scenario=" + name.get(k, "?"), scn.get(k, []) + [l])
             witnessed = True
     reproduced = set()
